@@ -204,6 +204,13 @@ new.append(entry("C14", level="other",
               ["types.Parse%sAddr" % r for r in ROLES] + ["types.lemma%sAddrText" % r for r in ROLES],
     scope=[r"^types\."],
     pinned_file="pins_types.json", pinned_labels=["contract", "macro"],
+    bounded_checks=[{"match": "bounded:types_text:composite", "driver": "types_text", "pkg": "types", "case": "composite",
+                     "functions": ["types.(*TaskType).UnmarshalJSON", "types.(TaskType).MarshalJSON", "types.(*TaskType).UnmarshalTSV", "types.(*Task).UnmarshalJSON",
+                                   "types.(*TimeProfile).UnmarshalJSON", "types.(Card).MarshalJSON", "types.(*Card).UnmarshalJSON", "types.(Version).MarshalJSON", "types.(*Version).UnmarshalJSON",
+                                   "types.(MacAddress).MarshalJSON", "types.(*MacAddress).UnmarshalJSON", "types.(Weekdays).MarshalJSON", "types.(*Weekdays).UnmarshalJSON", "types.CardFormatFromString"],
+                     "bound": "decode(encode(v)) == v into a fresh zero-valued variable for: all 13 task types (JSON by name and by number 1..13, TSV by name and number; 0, 14 and unknown names rejected), "
+                              "all 65536 firmware versions, all 128 weekday sets, 5 MAC addresses, both card formats, 156 Task documents (13 types x 3 dates x 4 weekday sets), 20 TimeProfile documents, "
+                              "12 Card documents (PIN 0 / 999999, permissions 0 / 1 / 29 / 254); 4 Task and 2 Card documents outside the domain rejected"}],
     replay=[{"match": "HHmm", "driver": "types_text", "pkg": "types", "case": "hhmm"},
             {"match": "lemmaJSONDateTime", "driver": "types_text", "pkg": "types", "case": "datetime"},
             {"match": "(*Weekdays).UnmarshalJSON", "driver": "types_text", "pkg": "types", "case": "weekdays"},
@@ -212,8 +219,9 @@ new.append(entry("C14", level="other",
     assumptions=["encoding/json on strings is an abstract quoting (spec/json.spec): json.Marshal of a Go string yields bytes that are a JSON string with that content, json.Unmarshal of such bytes into a *string yields the content; bytes that are not a JSON string give an error or an arbitrary string",
                  "regular expressions of the form ^...$ with fixed-width digit groups are modelled exactly; strconv.Atoi of an all-digit string is its value; fmt.Sprintf(%02d:%02d) and time.Format(2006-01-02) yield the digit groups; time model as for C13",
                  "zone designations (layout element MST of time.Format / time.Parse; spec/time.spec): every designation Format writes is 'UTC', an alphabetic abbreviation or sign+hours (both accepted by the layout MST) or sign+hours+minutes such as +0330 (rejected by MST, accepted by -0700); the abbreviation in force at an instant, looked up at that instant's civil time, yields the offset in force (Go documents this as imperfect in the repeated hour of a zone that uses one abbreviation for both offsets); a numeric designation states the offset in force. Bounded conformance: replay driver types_text/datetime, 33 zones x every hour of 3 years, thorough tier"],
-    bounded=[],
-    not_decided=["Card, TimeProfile, Task (their UnmarshalJSON delegates to encoding/json's reflective struct/map decoding, which has no contract in the engine); for Weekdays and Segments only 'decodes into a nil map without panicking and leaves a map' is decided, not the value",
+    bounded=["bounded stand-in (bounded_checks in the evidence, driver types_text:composite, run on the real functions in every tier; NOT counted as proved): JSON round trip into a zero-valued variable of task type "
+             "(all 13 values, by name and number, JSON and TSV), firmware version (all 65536), weekdays (all 128 sets), MAC address, card format, and of Task / TimeProfile / Card documents over a small grid of in-domain values"],
+    not_decided=["by contracts (a bounded stand-in runs instead, see bounded_parts): Card, TimeProfile, Task (their UnmarshalJSON delegates to encoding/json's reflective struct/map decoding, which has no contract in the engine); for Weekdays and Segments only 'decodes into a nil map without panicking and leaves a map' is decided, not the value",
                  "DateTime JSON for values held in a zone other than the process zone or UTC (their abbreviation means nothing to the decoding process: the instant is not kept - by design of the format), and the reject side of DateTime JSON; Version (fmt.Sscanf), MacAddress (net.ParseMAC), TaskType by name and CardFormat (case-folding regular-expression rewriting), the accept side of PIN JSON (variable-width decimal text; the reject side - more than six characters, a non-digit - and the blank PIN are decided), SystemTime text form",
                  "JSON forms of the address types (the text round trip is decided: lemma<Role>AddrText)"],
     explanation="Decided for the leaf types whose parser is repository code over a string: HH:mm (String/HHmmFromString and JSON: accepted exactly for dd:dd with hours <= 24, minutes <= 59, not 24:mm with mm != 0; everything else of that JSON-string form rejected; decode(encode(v)) == v), door control state JSON (exactly the three names; anything else rejected), Date JSON and text (blank <-> zero value, impossible dates rejected, civil value kept whenever the day exists in the zone), DateTime JSON (decode(encode(v)) is the same instant, to the second, for every v held in the process zone or in UTC, in every process zone - under the assumed model of zone designations), and the four address types' text forms. Level 'other': the property lists more types than contracts can reach."))
